@@ -7,6 +7,31 @@ ROOT = os.path.dirname(os.path.dirname(os.path.abspath(__file__)))
 
 TECH = "deterministic simulation with fault injection"
 CHECKS = {
+    "C01": dict(
+        level="exploration", design="DESIGN.md 4/C01",
+        technique=TECH + ": real overlays of all 9 shipped classes on SimNet, on-path adversary mutating datagrams at delivery "
+                         "time, wire-level authenticity oracle + handler-entry probes + causality (ContextVar) effect attribution",
+        text="Scripted multi-node runs of every shipped overlay class on the simulated network; at each genuine delivery an "
+             "adversary hands the receiver mutated copies (every byte position x masks for one datagram per message type in the "
+             "sweep cases; seeded flips, truncation, extension, key substitution, foreign signature, re-signing, splice, id/prefix "
+             "swap, spoofed source, replay otherwise). The harness itself decides authenticity from the wire format and the Rust "
+             "primitive and demands: signed message types enter handlers only when authentic and with exactly the datagram's key; "
+             "non-authentic datagrams cause no verified-peer entry and no reply; honest traffic does reach every handler. Sampling "
+             "of schedules and mutation choices; byte sweeps are complete per swept datagram.",
+        note="Trusts the Rust signature primitives (also the oracle's primitive) and simkit. ECDSA-curve runs limited to overlays "
+             "whose control flow does not depend on randomised signature bytes."),
+    "C03": dict(
+        level="fault_enumeration", design="DESIGN.md 4/C03",
+        technique=TECH + ": corruption/injection faults enumerated against live multiplexed nodes on SimNet; decode monitor "
+                         "wrapped around every Packer and Serializer.unpack_serializable; witness listeners",
+        text="A live node (Discovery+DHTDiscovery+HiddenTunnel+Attestation+Identity multiplexed on one real UDPEndpoint, or one "
+             "overlay alone) with real circuits/relays/exit entries is fed, through the simulated transport at every script step, "
+             "an enumerated family of malformed datagrams (all prefixes of each captured genuine datagram type, all 256 msg ids, all "
+             "short lengths, overwritten length fields, crafted cells for live circuit ids, random bytes). Any exception escaping "
+             "datagram_received, a starved listener, a foreign-prefix datagram entering a handler, a decode ending beyond its "
+             "buffer or a length-prefixed value shorter than declared is a violation; the node must still answer afterwards.",
+        note="The native ipv8_rust_tunnels.Endpoint is not exercised (PythonCryptoEndpoint is). Enumeration is per captured "
+             "datagram type, not over all 2^(8*1500) byte strings."),
     "C10": dict(
         level="exploration", design="DESIGN.md 4/C10",
         technique=TECH + ": real RequestCache/TaskManager on a seeded virtual-time asyncio loop, lock-step reference model, "
@@ -17,6 +42,18 @@ CHECKS = {
              "Sampling, plus an enumerated grid of tie patterns for 1..3 caches; a clean run is evidence, not proof.",
         note="Trusts CPython asyncio Task/Future semantics and simkit's loop (FIFO call_soon, timers never early). "
              "Single-threaded: the caches' thread locks are never contended."),
+    "C16": dict(
+        level="exploration", design="DESIGN.md 4/C16",
+        technique=TECH + ": arrival schedule of tokens is the searched object (all permutations for <=6 tokens over all 84 rooted "
+                         "forest shapes, seeded beyond) with forged/foreign/dangling/duplicate fault injection; reference closure "
+                         "oracle after every arrival",
+        text="A receiver TokenTree is offered tokens of a source tree in explicit arrival schedules mixed with forged, foreign, "
+             "dangling and duplicate tokens, wrong content and garbage serialisations; after every arrival and at the end the "
+             "element / waiting sets are compared with a reference closure computed from the offers only, outcomes are compared "
+             "across orders, and serialize_public round-trips. Exhaustive over arrival orders for <= 6 tokens in the thorough "
+             "tier, sampled for larger trees.",
+        note="Validity of a token is known by construction (trusts Ed25519 and SHA3-256). Delivery through IdentityCommunity "
+             "messages is exercised by C17/C01 scenarios, not here."),
 }
 
 NOT_APPLICABLE = {
